@@ -157,6 +157,27 @@ fn positions_leg(json_text: &str, meta: &std::rc::Rc<Meta>, tape: &[u16], label:
                 break;
             }
             let Ok(s1) = h.story.save_state() else { continue };
+            // the position the host is told (get_current_path) names the element the save
+            // points at: container path plus index of the current thread's top element
+            if let Ok(sj) = serde_json::from_str::<J>(&s1) {
+                let flow = sj["currentFlowName"].as_str().unwrap_or("DEFAULT_FLOW").to_string();
+                let top = sj["flows"][&flow]["callstack"]["threads"]
+                    .as_array()
+                    .and_then(|t| t.last())
+                    .and_then(|t| t["callstack"].as_array())
+                    .and_then(|c| c.last())
+                    .cloned();
+                if let Some(top) = top {
+                    let expected = top["cPath"].as_str().map(|cp| {
+                        let idx = top["idx"].as_i64().unwrap_or(0);
+                        if cp.is_empty() { format!("{idx}") } else { format!("{cp}.{idx}") }
+                    });
+                    let told = h.story.get_current_path();
+                    if told != expected {
+                        return Ok(Some((step, format!("get_current_path() says {told:?} while the save records the position {expected:?}"))));
+                    }
+                }
+            }
             let mut f = Host::new(json_text, meta.clone(), &cfg).map_err(|e| e.to_string())?;
             if let Err(e) = f.story.load_state(&s1) {
                 return Ok(Some((step, format!("the story's own save does not load: {e}"))));
